@@ -205,6 +205,8 @@ func (s *Protocol) InvokeTimeout(pkg []byte) []byte {
 	reqPackage := requestf.RequestPacket{}
 	is := codec.NewReader(pkg[4:])
 	reqPackage.ReadFrom(is)
+	rspPackage.IVersion = reqPackage.IVersion
+	rspPackage.CPacketType = reqPackage.CPacketType
 	rspPackage.IRequestId = reqPackage.IRequestId
 	rspPackage.IRet = 1
 	rspPackage.SResultDesc = "server invoke timeout"
